@@ -685,6 +685,15 @@ func parseTLV(data []byte) (result []interface{}, err error) {
 			if len(shape.Sizes) == 0 {
 				return result, fmt.Errorf("shape TLV contains no positive sizes")
 			}
+			// The payload length is a 16-bit field, so no valid packet holds more values than that.
+			// (This also keeps the product of the sizes from overflowing.)
+			nvalues := 1
+			for _, d := range shape.Sizes {
+				nvalues *= int(d)
+				if nvalues > math.MaxUint16 {
+					return result, fmt.Errorf("shape TLV sizes %v describe more values than a payload can hold", shape.Sizes)
+				}
+			}
 			result = append(result, shape)
 
 		case tlvCHANOFFSET:
